@@ -182,11 +182,14 @@ def run(ctx):
 
     real_linear = F.linear
 
-    def guarded_linear(a, w, bias=None):
+    def guarded_linear(*args, **kwargs):
+        # arguments are handed on exactly as written (positional or by keyword): the spelling is part of the program
+        a = args[0] if args else kwargs.get("input")
+        w = args[1] if len(args) > 1 else kwargs.get("weight")
         if crash_class(a, w, "linear"):
             ctx.count("steered_around_known_crash_class")
             raise RuntimeError("skipped: known crash class (probed in C07)")
-        return real_linear(a, w, bias)
+        return real_linear(*args, **kwargs)
 
     F.linear = guarded_linear
     try:
